@@ -6,6 +6,7 @@ CONSTANTS
   MaxIssued = 6
   Rebootstrap = TRUE
   Wipeouts = TRUE
+  Collide = TRUE
   Times = {1}
   Design = "atomic"
 INIT TraceInit
